@@ -178,7 +178,8 @@ func runC10(c *sim.Ctx) *sim.Violation {
 		c.Count("probe.malformed-but-constructible." + malformed)
 	}
 	// (2) a writer that refuses
-	E := errors.New(fmt.Sprintf("writer failure #%d", c.Seq()))
+	var E error
+	E, _ = link.NewFaultErr(c, fmt.Sprintf("writer failure #%d", c.Seq()))
 	w2 := link.NewWriter(c)
 	w2.Kind, w2.Err = 1, E
 	if pi := sim.Guard(func() { n, err = p.WriteTo(wr(w2)) }); pi != nil {
@@ -200,17 +201,30 @@ func runC10(c *sim.Ctx) *sim.Violation {
 	} else {
 		ks = []int{0, 1, 2, len(B) - 1, t.Int(len(B)), t.Int(len(B)), t.Int(len(B))}
 	}
+	transient := t.Bool(1, 3)
 	for _, k := range ks {
 		w3 := link.NewWriter(c)
 		w3.Kind, w3.K, w3.Err = 2, k, E
+		if transient {
+			// the writer fails once and would accept everything afterwards: the
+			// error must still be returned, with the count accepted when it happened
+			w3.Kind = 3
+		}
 		if pi := sim.Guard(func() { n, err = p.WriteTo(wr(w3)) }); pi != nil {
 			return sim.V("C10/"+typ+"/panic:"+pi.Site, "WriteTo(accept-%d writer) panicked: %s", k, pi.Value)
 		}
 		if !errors.Is(err, E) {
 			return sim.V("C10/"+typ+"/error-lost", "frame of %d bytes, writer accepts %d then fails with E: WriteTo returned n=%d err=%v", len(B), k, n, err)
 		}
-		if int(n) != len(w3.Buf) {
-			return sim.V("C10/"+typ+"/n-differs-from-accepted", "frame of %d bytes, writer accepted %d bytes then failed: WriteTo returned n=%d", len(B), len(w3.Buf), n)
+		accepted := len(w3.Buf)
+		if transient && w3.Failed {
+			accepted = w3.AtError
+			if len(w3.Buf) != w3.AtError {
+				return sim.V("C10/"+typ+"/wrote-on-after-the-writer-reported-an-error", "frame of %d bytes, writer accepted %d bytes and reported E (%v) once: WriteTo handed it %d more bytes afterwards", len(B), w3.AtError, E, len(w3.Buf)-w3.AtError)
+			}
+		}
+		if int(n) != accepted {
+			return sim.V("C10/"+typ+"/n-differs-from-accepted", "frame of %d bytes, writer accepted %d bytes then failed: WriteTo returned n=%d", len(B), accepted, n)
 		}
 		if len(w3.Buf) > len(B) || string(w3.Buf) != string(B[:len(w3.Buf)]) {
 			return sim.V("C10/"+typ+"/partial-bytes-not-a-prefix", "frame %s, failing writer received %s", hexs(B), hexs(w3.Buf))
